@@ -35,7 +35,8 @@ P_MACHINE = 'pcbasic/basic/machine.py'
 P_IMPL = 'pcbasic/basic/implementation.py'
 P_INTERP = 'pcbasic/basic/interpreter.py'
 P_MEMORY = 'pcbasic/basic/memory/memory.py'
-SOURCES = [P_PROGRAM, P_MACHINE, P_IMPL, P_INTERP, P_MEMORY]
+P_STRINGS = 'pcbasic/basic/values/strings.py'
+SOURCES = [P_PROGRAM, P_MACHINE, P_IMPL, P_INTERP, P_MEMORY, P_STRINGS]
 
 # (file, class, method, coq name)
 GUARDED = [
@@ -422,6 +423,32 @@ def generate(repo):
         raise Refuse('Implementation.new_ does not call self.program.erase() unconditionally')
     out.append('Definition new_erases : bool := true.')
     out.append('Definition load_erases_first : bool := true.')
+    # FIELD: a string descriptor is only created inside the FIELD buffer.  Field.attach_var must check
+    # `offset + length > len(self._buffer)` (raise FIELD overflow) at top level BEFORE the descriptor is packed /
+    # assigned; the last FIELD buffer ends exactly at code_start and StringSpace.view reads descriptors at
+    # addresses >= code_start from the program code without any guard.
+    fn = mods[P_MEMORY].find('Field.attach_var')
+    body = body_stmts(fn)
+    mk = [i for i, st_ in enumerate(body) if {'pack', 'set_variable', 'from_bytes'} & names_in(st_)]
+    if not mk:
+        raise Refuse('Field.attach_var: no descriptor creation found')
+    bounded = False
+    for st_ in body[:mk[0]]:
+        if (isinstance(st_, ast.If) and not st_.orelse
+                and ast.unparse(st_.test) in ('offset + length > len(self._buffer)',
+                                              'length + offset > len(self._buffer)')
+                and len(st_.body) == 1 and isinstance(st_.body[0], ast.Raise)
+                and ast.unparse(st_.body[0].exc) == 'error.BASICError(error.FIELD_OVERFLOW)'):
+            bounded = True
+        elif isinstance(st_, ast.If) and 'len' in names_in(st_.test) and '_buffer' in names_in(st_.test):
+            raise Refuse('Field.attach_var: unrecognised bound check %s' % ast.unparse(st_.test))
+    out.append('Definition field_bounded : bool := %s.   (* Field.attach_var refuses a descriptor that leaves '
+               'the FIELD buffer before creating it *)' % ('true' if bounded else 'false'))
+    out.append('Definition field_overflow_err : Z := %d.' % errors['FIELD_OVERFLOW'])
+    # the string reader is unguarded (that is why the bound above carries the property)
+    fn = mods[P_STRINGS].find('StringSpace.view')
+    if mentions_protected(fn):
+        raise Refuse('StringSpace.view now mentions .protected: model it')
     out.append('')
     out.append('(* census of the call sites of %s under pcbasic/basic *)' % ', '.join(CENSUS))
     out.append('Definition reader_sites : list string := [\n  %s].' % ';\n  '.join(cstr(s) for s in census(repo)))
